@@ -167,6 +167,7 @@ type RunResult struct {
 	ExtBlocks  int64          `json:"ext_blocks"`
 	Foreign    string         `json:"foreign,omitempty"`
 	Violations []Violation    `json:"violations,omitempty"`
+	Known      []Violation    `json:"known,omitempty"` // violations listed in known_findings.jsonl (the run went on)
 	AppHash    string         `json:"app_hash,omitempty"`
 	Sample     []string       `json:"sample,omitempty"`
 	ReplayPath string         `json:"replay,omitempty"`
@@ -230,9 +231,24 @@ func Execute(eng Engine, prop string, seed uint64, tier string) (*Run, *RunResul
 		return r, r.finish(res, nil)
 	}
 	var vs []Violation
+	known := loadKnown()
+	seenKnown := map[string]bool{}
 	for len(r.Steps) < cfg.Steps && r.Foreign == "" {
 		s := eng.Gen(r)
 		vs = r.step(s)
+		// recorded findings do not end the run: exploration continues behind them
+		var unknown []Violation
+		for _, v := range vs {
+			if isKnown(known, prop, v) != nil {
+				if !seenKnown[v.ID()] {
+					seenKnown[v.ID()] = true
+					res.Known = append(res.Known, v)
+				}
+			} else {
+				unknown = append(unknown, v)
+			}
+		}
+		vs = unknown
 		if len(vs) > 0 {
 			break
 		}
